@@ -225,6 +225,27 @@ pub fn run(ctx: &mut Ctx) {
         if e2e.is_some() {
             ctx.stat("sessions_with_end_to_end_authorization");
         }
+        // a header that only begins like a ping marker (`X-Ping: 1`, `Sec-Fetch-Mode: navigate` are the markers): the request is
+        // a tunnel request like any other and goes through the gate
+        let near_ping: Option<(&str, &str)> = if ctx.rng.chance(1, 4) {
+            Some(*ctx.rng.pick(&[("x-ping", "10"), ("x-ping", "1.0"), ("x-ping", "1, 1"), ("x-ping", "11"), ("sec-fetch-mode", "navigate-nested"), ("sec-fetch-mode", "navigated"), ("x-ping", "0"), ("sec-fetch-mode", "cors")]))
+        } else {
+            None
+        };
+        if near_ping.is_some() {
+            ctx.stat("sessions_with_a_near_miss_ping_marker");
+        }
+        // the User-Agent is handed to the forwarder as text when it is text: any value (none, ASCII, UTF-8, bytes that are no
+        // text at all) leaves the request's answer what it is
+        let ua: Option<Vec<u8>> = match ctx.rng.below(6) {
+            0 => None,
+            1 => Some("Android \u{41f}\u{43e}\u{447}\u{442}\u{430}/2".as_bytes().to_vec()),
+            2 => Some(vec![b'a', 0xff, 0xfe, b'z']),
+            _ => Some(b"verif".to_vec()),
+        };
+        if !matches!(ua.as_deref(), Some(b"verif")) {
+            ctx.stat("sessions_with_an_unusual_user_agent");
+        }
         let nreq = if proto == "h1" { 1 } else { ctx.rng.range(1, if ctx.thorough() { 5 } else { 3 }) as usize };
         let mut script = FwdScript::default();
         script.udp_mux_fails = ctx.rng.chance(1, 8);
@@ -297,7 +318,15 @@ pub fn run(ctx: &mut Ctx) {
                 raw.extend_from_slice(e);
                 raw.extend_from_slice(b"\r\n");
             }
-            raw.extend_from_slice(b"User-Agent: verif\r\n\r\n");
+            if let Some((n, v)) = near_ping {
+                raw.extend_from_slice(format!("{}: {}\r\n", n, v).as_bytes());
+            }
+            if let Some(u) = &ua {
+                raw.extend_from_slice(b"User-Agent: ");
+                raw.extend_from_slice(u);
+                raw.extend_from_slice(b"\r\n");
+            }
+            raw.extend_from_slice(b"\r\n");
             let sc = sni_creds.clone();
             let out = rt.block_on(async { tokio::time::timeout(std::time::Duration::from_secs(120), h1_session(core, "localhost", sc, raw, 40_000)).await });
             match out {
@@ -320,7 +349,13 @@ pub fn run(ctx: &mut Ctx) {
                     method: r.method.clone(),
                     target: if r.method == "CONNECT" { r.authority.clone() } else { format!("http://{}/p?q=1", r.authority) },
                     headers: {
-                        let mut h = vec![("user-agent".to_string(), b"verif".to_vec())];
+                        let mut h = vec![];
+                        if let Some(u) = &ua {
+                            h.push(("user-agent".to_string(), u.clone()));
+                        }
+                        if let Some((n, v)) = near_ping {
+                            h.push((n.to_string(), v.as_bytes().to_vec()));
+                        }
                         if let Some(v) = &r.hdr {
                             h.push(("proxy-authorization".to_string(), v.clone()));
                         }
@@ -378,10 +413,17 @@ pub fn run(ctx: &mut Ctx) {
         let mut q = format!(
             "c10 session {} {} {} 30000 {}",
             // (the model does not look at this token: the protocol and the end-to-end header are here for the replay)
-            match &e2e {
-                Some(e) => format!("{}+authorization={}", proto, hex(e)),
-                None => proto.to_string(),
-            },
+            format!(
+                "{}{}{}{}",
+                proto,
+                e2e.as_ref().map(|e| format!("+authorization={}", hex(e))).unwrap_or_default(),
+                near_ping.map(|(n, v)| format!("+{}={}", n, hex(v.as_bytes()))).unwrap_or_default(),
+                match &ua {
+                    None => "+no-user-agent".to_string(),
+                    Some(u) if u == b"verif" => String::new(),
+                    Some(u) => format!("+user-agent={}", hex(u)),
+                }
+            ),
             authn_tok(&authn),
             sni_creds.as_ref().map(|s| hex(s.as_bytes())).unwrap_or_else(|| "-".into()),
             reqs.len()
